@@ -39,7 +39,7 @@ structure LInv (s : St) : Prop where
     ((s.sock x).held > 0 → (s.sock x).holdRx = true)
   q : ∀ x id, id ∈ (s.sock x).sendQ → s.futs id = some (x, .pending)
   qnodup : ∀ x, (s.sock x).sendQ.Nodup
-  poolq : s.poolAlive = false → ∀ j, s.isPending j = false
+  poolq : s.poolAlive = false → ∀ j, s.isPoolPending j = false
   nf : ∀ j, s.futs j ≠ none → j < s.nfut
 
 theorem LInv.init : LInv {} :=
@@ -150,6 +150,10 @@ theorem isPending_iff (s : St) (j : Nat) : s.isPending j = true ↔ ∃ x, s.fut
     · cases h
   · intro ⟨x, hx⟩; rw [hx]
 
+theorem isPoolPending_iff (s : St) (j : Nat) : s.isPoolPending j = true ↔ s.isPending j = true ∧ s.echo j = false := by
+  unfold St.isPoolPending
+  simp
+
 /-- `~SocketAsyncImpl` of a live socket whose receive buffers were all returned -/
 theorem LInv.destroySockObj {s : St} (h : LInv s) (i : Nat) (hal : (s.sock i).alive = true) (hheld : (s.sock i).held = 0) :
     LInv (s.destroySockObj i) := by
@@ -165,6 +169,8 @@ theorem LInv.destroySockObj {s : St} (h : LInv s) (i : Nat) (hal : (s.sock i).al
   have hfut1 : (if (s.drv (s.sock i).drv).alive = true then s.setDrv (s.sock i).drv ((s.drv (s.sock i).drv).unregister i) else s).futs = s.futs := by
     split <;> rfl
   have hpool1 : (if (s.drv (s.sock i).drv).alive = true then s.setDrv (s.sock i).drv ((s.drv (s.sock i).drv).unregister i) else s).poolAlive = s.poolAlive := by
+    split <;> rfl
+  have hecho1 : (if (s.drv (s.sock i).drv).alive = true then s.setDrv (s.sock i).drv ((s.drv (s.sock i).drv).unregister i) else s).echo = s.echo := by
     split <;> rfl
   -- after step 1 the socket is in no list of a live driver
   have hnot : ∀ d, ((if (s.drv (s.sock i).drv).alive = true then s.setDrv (s.sock i).drv ((s.drv (s.sock i).drv).unregister i) else s).drv d).alive = true →
@@ -182,18 +188,18 @@ theorem LInv.destroySockObj {s : St} (h : LInv s) (i : Nat) (hal : (s.sock i).al
       have := (h.reg d i hda hin).2
       rw [← this] at hda
       exact hdrv hda
-  generalize hs1 : (if (s.drv (s.sock i).drv).alive = true then s.setDrv (s.sock i).drv ((s.drv (s.sock i).drv).unregister i) else s) = s1 at h1 hsock1 hfut1 hpool1 hnot
+  generalize hs1 : (if (s.drv (s.sock i).drv).alive = true then s.setDrv (s.sock i).drv ((s.drv (s.sock i).drv).unregister i) else s) = s1 at h1 hsock1 hfut1 hpool1 hecho1 hnot
   -- step 2: the pool check cannot fire
-  have hq0 : ¬ ((s.sock i).sendQ.length > 0 ∧ ¬ s1.poolAlive = true) := by
-    intro ⟨hlen, hp⟩
+  have hq0 : ¬ ((s.sock i).sendQ.any (fun id => !s.echo id) = true ∧ ¬ s1.poolAlive = true) := by
+    intro ⟨hany, hp⟩
     have hp' : s1.poolAlive = false := by simpa using hp
-    cases hql : (s.sock i).sendQ with
-    | nil => simp [hql] at hlen
-    | cons id rest =>
-      have := h.q i id (by rw [hql]; simp)
-      have hpen := h1.poolq hp' id
-      have hpt : s1.isPending id = true := by rw [isPending_iff]; exact ⟨i, by rw [hfut1]; exact this⟩
-      rw [hpen] at hpt; cases hpt
+    obtain ⟨id, hid, hne⟩ := List.any_eq_true.mp hany
+    have := h.q i id hid
+    have hpen := h1.poolq hp' id
+    have hpt : s1.isPoolPending id = true := by
+      rw [isPoolPending_iff, isPending_iff]
+      exact ⟨⟨i, by rw [hfut1]; exact this⟩, by rw [hecho1]; simpa using hne⟩
+    rw [hpen] at hpt; cases hpt
   simp only [hq0, ↓reduceIte]
   exact
   { ub := h1.ub, par := h1.par, nodup := h1.nodup, drvPresent := h1.drvPresent
@@ -237,18 +243,20 @@ theorem LInv.destroySockObj {s : St} (h : LInv s) (i : Nat) (hal : (s.sock i).al
       · rw [setSock_other _ _ hxi]; exact h1.qnodup x
     poolq := fun hp j => by
       have := h1.poolq hp j
-      cases hpj : St.isPending _ j with
+      cases hpj : St.isPoolPending _ j with
       | false => rfl
       | true =>
         exfalso
-        obtain ⟨x, hx⟩ := (isPending_iff _ j).mp hpj
+        obtain ⟨hpen, hech⟩ := (isPoolPending_iff _ j).mp hpj
+        have hech' : s1.echo j = false := hech
+        obtain ⟨x, hx⟩ := (isPending_iff _ j).mp hpen
         have hx' : (if j ∈ (s.sock i).sendQ then (s1.futs j).map (fun (p : Nat × Fut) => (p.1, Fut.broken)) else s1.futs j) = some (x, .pending) := hx
         split at hx'
         · cases hf : s1.futs j with
           | none => rw [hf] at hx'; cases hx'
           | some p => rw [hf] at hx'; simp at hx'
-        · have : s1.isPending j = true := (isPending_iff _ j).mpr ⟨x, hx'⟩
-          rw [‹s1.isPending j = false›] at this; cases this
+        · have : s1.isPoolPending j = true := (isPoolPending_iff _ j).mpr ⟨(isPending_iff _ j).mpr ⟨x, hx'⟩, hech'⟩
+          rw [‹s1.isPoolPending j = false›] at this; cases this
     nf := fun j hj => by
       apply h1.nf j
       intro hnone
@@ -359,11 +367,13 @@ theorem LInv.resolveFront {s : St} (h : LInv s) (i id : Nat) (rest : List Nat) (
       · rw [setSock_other _ _ hxi]; exact h.qnodup x
     poolq := fun hp j => by
       have := h.poolq hp j
-      cases hpj : St.isPending _ j with
+      cases hpj : St.isPoolPending _ j with
       | false => rfl
       | true =>
         exfalso
-        obtain ⟨x, hx⟩ := (isPending_iff _ j).mp hpj
+        obtain ⟨hpen, hech⟩ := (isPoolPending_iff _ j).mp hpj
+        have hech' : s.echo j = false := hech
+        obtain ⟨x, hx⟩ := (isPending_iff _ j).mp hpen
         have hx' : (if j = id then (s.futs id).map (fun (p : Nat × Fut) => (p.1, v)) else s.futs j) = some (x, .pending) := hx
         split at hx'
         · cases hf : s.futs id with
@@ -372,7 +382,7 @@ theorem LInv.resolveFront {s : St} (h : LInv s) (i id : Nat) (rest : List Nat) (
             rw [hf] at hx'
             simp only [Option.map_some, Option.some.injEq, Prod.mk.injEq] at hx'
             exact hv hx'.2
-        · have hp2 : s.isPending j = true := (isPending_iff _ j).mpr ⟨x, hx'⟩
+        · have hp2 : s.isPoolPending j = true := (isPoolPending_iff _ j).mpr ⟨(isPending_iff _ j).mpr ⟨x, hx'⟩, hech'⟩
           rw [this] at hp2; cases hp2
     nf := fun j hj => by
       apply h.nf j
@@ -495,21 +505,21 @@ theorem LInv.wantSend {s : St} (h : LInv s) (i : Nat) : LInv (St.wantSend .fixed
     · exact h
 
 theorem poolBusy_zero {s : St} (hnf : ∀ j, s.futs j ≠ none → j < s.nfut) (h0 : s.poolBusy = 0) (j : Nat) :
-    s.isPending j = false := by
-  cases hp : s.isPending j with
+    s.isPoolPending j = false := by
+  cases hp : s.isPoolPending j with
   | false => rfl
   | true =>
     exfalso
-    obtain ⟨x, hx⟩ := (isPending_iff s j).mp hp
+    obtain ⟨x, hx⟩ := (isPending_iff s j).mp ((isPoolPending_iff s j).mp hp).1
     have hlt : j < s.nfut := hnf j (by rw [hx]; simp)
     unfold St.poolBusy at h0
     have hnil := List.eq_nil_of_length_eq_zero h0
-    have : j ∈ (List.range s.nfut).filter s.isPending := List.mem_filter.mpr ⟨List.mem_range.mpr hlt, hp⟩
+    have : j ∈ (List.range s.nfut).filter s.isPoolPending := List.mem_filter.mpr ⟨List.mem_range.mpr hlt, hp⟩
     rw [hnil] at this
     cases this
 
-theorem LInv.enqueue {s : St} (h : LInv s) (i : Nat) (hal : (s.sock i).alive = true) (hpa : s.poolAlive = true) :
-    LInv (s.enqueue i) := by
+theorem LInv.enqueue {s : St} (h : LInv s) (i : Nat) (e : Bool) (hal : (s.sock i).alive = true)
+    (hpa : e = false → s.poolAlive = true) : LInv (s.enqueue i e) := by
     unfold St.enqueue
     have hfreshId : ∀ x, s.nfut ∉ (s.sock x).sendQ := by
       intro x hin
@@ -559,9 +569,23 @@ theorem LInv.enqueue {s : St} (h : LInv s) (i : Nat) (hal : (s.sock i).alive = t
             intro e; subst e; exact hfreshId x ha
           · show ((St.setSock s i _).sock x).sendQ.Nodup
             rw [setSock_other _ _ hxi]; exact h.qnodup x
-        poolq := fun hp => by
-          have : s.poolAlive = false := hp
-          rw [hpa] at this; cases this
+        poolq := fun hp j => by
+          have hp' : s.poolAlive = false := hp
+          cases hpj : St.isPoolPending _ j with
+          | false => rfl
+          | true =>
+            exfalso
+            obtain ⟨hpen, hech⟩ := (isPoolPending_iff _ j).mp hpj
+            have hech' : (if j = s.nfut then e else s.echo j) = false := hech
+            obtain ⟨x, hx⟩ := (isPending_iff _ j).mp hpen
+            have hx' : (if j = s.nfut then some (i, Fut.pending) else s.futs j) = some (x, Fut.pending) := hx
+            by_cases hj : j = s.nfut
+            · rw [if_pos hj] at hech'
+              have := hpa hech'
+              rw [hp'] at this; cases this
+            · rw [if_neg hj] at hech' hx'
+              have h1 : s.isPoolPending j = true := (isPoolPending_iff _ j).mpr ⟨(isPending_iff _ j).mpr ⟨x, hx'⟩, hech'⟩
+              rw [h.poolq hp' j] at h1; cases h1
         nf := fun j hj => by
           show j < s.nfut + 1
           by_cases hjn : j = s.nfut
@@ -615,10 +639,22 @@ theorem LInv.exec {s : St} (h : LInv s) (op : Op) (hl : legalOp s op = true) : L
     simp only [legalOp, Bool.and_eq_true, bne_iff_ne, ne_eq, decide_eq_true_eq] at hl
     obtain ⟨⟨⟨hal, _⟩, hpa⟩, _⟩ := hl
     simp only [hal, not_true_eq_false, ↓reduceIte, hpa]
-    have h1 := h.enqueue i hal hpa
+    have h1 := h.enqueue i false hal (fun _ => hpa)
     split
     · exact h1.wantSend i
     · exact h1
+  | echo i =>
+    simp only [legalOp, Bool.and_eq_true, bne_iff_ne, ne_eq, decide_eq_true_eq] at hl
+    obtain ⟨⟨hal, _⟩, hheld⟩ := hl
+    have hne : ¬ (s.sock i).held = 0 := by omega
+    simp only [hal, not_true_eq_false, ↓reduceIte, hne]
+    have h1 : LInv (s.setSock i { (s.sock i) with held := (s.sock i).held - 1 }) :=
+      h.setSockLight i _ rfl rfl rfl rfl rfl rfl rfl (fun hgt => (h.cfg i).2.2 (by simp only at hgt; omega))
+    have h2 := h1.enqueue i true (by simp [hal]) (fun e => by cases e)
+    simp only [hal] at h2
+    split
+    · exact h2.wantSend i
+    · exact h2
   | step d =>
     simp only [legalOp] at hl
     simp only [hl, not_true_eq_false, ↓reduceIte]
@@ -716,7 +752,7 @@ theorem FInv.destroySockObj {s : St} (h : FInv s) (i : Nat) : FInv (s.destroySoc
   generalize hs1 : (if (s0.drv (s.sock i).drv).alive = true then s0.setDrv (s.sock i).drv ((s0.drv (s.sock i).drv).unregister i) else s0) = s1
   have h1 : FInv s1 := by subst hs1; split; exact h0.setDrv _ _; exact h0
   have e1 : s1.sock = s.sock ∧ s1.futs = s.futs ∧ s1.nfut = s.nfut := by subst hs1; split <;> exact e0
-  generalize hs2 : (if (s.sock i).sendQ.length > 0 ∧ ¬s1.poolAlive = true then s1.fail "send buffer returned to a destroyed pool" else s1) = s2
+  generalize hs2 : (if (s.sock i).sendQ.any (fun id => !s.echo id) = true ∧ ¬s1.poolAlive = true then s1.fail "send buffer returned to a destroyed pool" else s1) = s2
   have h2 : FInv s2 := by subst hs2; split; exact h1.fail _; exact h1
   have e2 : s2.sock = s.sock ∧ s2.futs = s.futs ∧ s2.nfut = s.nfut := by subst hs2; split <;> exact e1
   refine ⟨?_, ?_, ?_⟩
@@ -861,7 +897,7 @@ theorem FInv.wantSend {s : St} (h : FInv s) (v : Variant) (i : Nat) : FInv (St.w
       · exact h
       · exact h.fail _
 
-theorem FInv.enqueue {s : St} (h : FInv s) (i : Nat) (hal : (s.sock i).alive = true) : FInv (s.enqueue i) := by
+theorem FInv.enqueue {s : St} (h : FInv s) (i : Nat) (e : Bool) (hal : (s.sock i).alive = true) : FInv (s.enqueue i e) := by
   unfold St.enqueue
   refine ⟨?_, ?_, ?_⟩
   · intro j x hj
@@ -935,8 +971,21 @@ theorem FInv.exec {s : St} (h : FInv s) (v : Variant) (op : Op) : FInv (exec v s
         split
         · exact h.fail _
         · split
-          · exact (h.enqueue i hal').wantSend v i
-          · exact h.enqueue i hal'
+          · exact (h.enqueue i false hal').wantSend v i
+          · exact h.enqueue i false hal'
+    | echo i =>
+      simp only
+      split
+      · exact h.fail _
+      · rename_i hal
+        have hal' : (s.sock i).alive = true := by simpa using hal
+        split
+        · exact h.fail _
+        · have h1 : FInv (s.setSock i { (s.sock i) with held := (s.sock i).held - 1 }) := h.setSockKeep i _ rfl rfl rfl
+          have h2 := h1.enqueue i true (by simp [hal'])
+          split
+          · exact h2.wantSend v i
+          · exact h2
     | step d => simp only; split; exact h.fail _; exact h.step d
     | peerSend i => exact h.setSockKeep i _ rfl rfl rfl
     | peerConnect i => exact h.setSockKeep i _ rfl rfl rfl
